@@ -25,6 +25,7 @@ def plan(tier):
         mods.append((xgen.parser_module("c12_reprint_k3", "CH12", 12, 3, "reprint"), 200, False))
         mods.append((xgen.parser_module("c12_spacing_k2", "CHUNKS", 17, 2, "spacing", fixed=0), 300, False))
         mods.append((xgen.parser_module("c12_spacing_k3", "SP8", 8, 3, "spacing"), 400, False))
+        mods.append((xgen.corpus_spacing_module("c12_corpus_spacing", 40, step=5, maxgap=12), 300, False))
         mods.append((xgen.parser_module("c12_entry_k2", "CHUNKS", 17, 2, "entry", fixed=0, families=FAMILIES), 300, False))
         mods.append((xgen.h1_module("c12_h1", 3), 60, True))
     else:
@@ -33,6 +34,7 @@ def plan(tier):
         mods.append((xgen.parser_module("c12_reprint_k4", "CHUNKS", 17, 4, "reprint", fixed=2), 3000, False))
         mods.append((xgen.parser_module("c12_spacing_k3", "CHUNKS", 17, 3, "spacing"), 3000, False))
         mods.append((xgen.parser_module("c12_entry_k3", "CHUNKS", 17, 3, "entry", fixed=1, families=FAMILIES), 3000, False))
+        mods.append((xgen.corpus_spacing_module("c12_corpus_spacing", 40, step=2, maxgap=40), 3000, False))
         mods.append((xgen.h1_module("c12_h1", 4), 600, True))
     return mods
 
@@ -55,6 +57,15 @@ def text_of_call(cond):
         return None, None
     if name == "cond_anystring":
         return args[0] if args else None, None
+    if name.startswith("cond_corpus_spacing"):
+        try:
+            d, g1, g2 = args[:3]
+            desc = L.CORPUS[d]
+            gaps = L.redundant_gaps(desc)
+            p1, p2 = sorted([gaps[g1 % len(gaps)], gaps[g2 % len(gaps)]])
+            return desc[:p1] + " " + desc[p1:p2] + " " + desc[p2:], None
+        except Exception:  # noqa: BLE001
+            return None, None
     mm = re.match(r"cond_(total|reprint|spacing|entry)_(?:(\w+?)_)?k(\d+)_t([\d_]*)$", name)
     if not mm:
         return None, None
